@@ -57,9 +57,9 @@ type Call struct {
 	// Transport bytes accepted / transport ops before and after the call.
 	WroteBefore, WroteAfter int
 	OpsBefore, OpsAfter     int
-	WOpsBefore, WOpsAfter   int // write-side transport operations (SetWriteDeadline/SetDeadline/Write)
+	WOpsBefore, WOpsAfter   int   // write-side transport operations (SetWriteDeadline/SetDeadline/Write)
 	StartSeq, EndSeq        int64 // global event stamps (concurrent legs)
-	Msg                     int // index into Sent, -1 if none
+	Msg                     int   // index into Sent, -1 if none
 	// Deadline is the deadline every frame written during this call must be
 	// written under: the connection's write deadline at the time of the call,
 	// or the argument of WriteControl.
@@ -138,7 +138,7 @@ type wexec struct {
 	// holding is the executor's expectation of whether the connection holds
 	// a write buffer right now (an open message writer that has not failed).
 	holding bool
-	ctlDl     *time.Time // deadline argument of the WriteControl about to be called
+	ctlDl   *time.Time // deadline argument of the WriteControl about to be called
 }
 
 func (x *wexec) call(step, part int, api string, bad bool, msg int, f func() error) error {
